@@ -256,7 +256,7 @@ func c09Gen(c *core.Ctx) {
 			continue
 		}
 		r := c.Rand("prog", int64(i))
-		o := gen.Options{Budget: 3 + r.IntN(10), Heredocs: i%3 == 0, Flat: i%4 == 1}
+		o := gen.Options{Budget: 3 + r.IntN(10), Heredocs: i%3 == 0, Flat: i%4 == 1, LeadHD: i%5 == 2}
 		p := gen.New(r, o).Program()
 		core.Run(c, c09Case{Prog: p, Seed: uint64(c.Seed)*31337 + uint64(i), Kind: "generated"}, c09Exec)
 	}
